@@ -12,6 +12,7 @@
 //	mono    <customs> <impl before> <impl after> <query before> <query after>   (one selection added at the top level)
 //	witness <customs> <impl before> <impl after> <query before> <query after>   (Lean: monotone_add_selection_witness)
 //	bad     <limit> <execCalls> <code|-> <httpExecCalls> <httpCode|-> <query>
+//	inst    see install.go: the limit installed through stock / embedding / delegating extension types with further hooks
 //
 // -mode genproj (genproj.go) writes the "generated server" projects whose REAL generated Complexity() switch is
 // executed by genrun.go.txt after the check generated them from /repo's current templates.
@@ -1096,6 +1097,7 @@ func main() {
 	mode := flag.String("mode", "run", "run | genproj (write the generated-server projects, see genproj.go)")
 	outDir := flag.String("out", "", "genproj: directory the projects are written to")
 	corpus := flag.String("corpus", "", "genproj: corpus/C14/genprojects.txt")
+	instCorpus := flag.String("instcorpus", "", "run: corpus/C14/installs.txt (directed installation configurations; the inst stream is skipped without it)")
 	flag.Parse()
 	defer out.Flush()
 	if *mode == "genproj" {
@@ -1105,9 +1107,9 @@ func main() {
 	r := rng.New(*seed ^ 0xC14C14)
 	schemas := []*ast.Schema{mustSchema(sdlA), mustSchema(sdlB)}
 
-	nCalc, nGate, nBad, nSa, nRand := 8000, 1500, 200, 5000, 4
+	nCalc, nGate, nBad, nSa, nRand, nInst := 8000, 1500, 200, 5000, 4, 800
 	if *tier == "thorough" {
-		nCalc, nGate, nBad, nSa, nRand = 200000, 20000, 2000, 300000, 40
+		nCalc, nGate, nBad, nSa, nRand, nInst = 200000, 20000, 2000, 300000, 40, 25000
 	}
 	for i := 0; i < nRand; i++ {
 		sdl := randomSDL(r.Fork())
@@ -1282,4 +1284,9 @@ func main() {
 		fmt.Fprintf(out, "bad\t%s\t%d\t%d\t%s\t%d\t%s\t%s\n", valid, limit, g.execCalls, g.code, g.httpExec, g.httpCode, flat(q))
 	}
 	fmt.Fprintf(out, "stats\tinvalid-generated\t%d\n", invalid)
+
+	// ---- HOW the limit is installed: stock / embedded / delegated-to, with further hooks, among other extensions (install.go)
+	if *instCorpus != "" {
+		runInstStream(r, schemas, *instCorpus, nInst)
+	}
 }
